@@ -1,6 +1,6 @@
 #!/bin/sh
 # usage: with_patch.sh <patch.diff> -- <command ...>   applies a patch in a scratch worktree of /repo and runs the command with AY_REPO
-p="$1"; shift; shift
+p="$(realpath "$1")"; shift; shift
 d=$(mktemp -d /tmp/mutrepo.XXXXXX)
 git -C /repo worktree add -q --detach "$d/repo" HEAD || exit 2
 git -C "$d/repo" apply "$p" || { echo "patch does not apply"; git -C /repo worktree remove --force "$d/repo"; rm -rf "$d"; exit 2; }
